@@ -83,11 +83,17 @@ def task(logdir, call_no, i, fails, delay, exc="TaskFail", extra=None):
             import threading
             return (call_no, i, threading.Lock())
         raise TaskFail("task failed", i)
+    if os.path.exists(os.path.join(logdir, "count_done")):
+        fd = os.open(os.path.join(logdir, "done.log"), os.O_WRONLY | os.O_APPEND | os.O_CREAT)
+        os.write(fd, ("%d\n" % call_no).encode())
+        os.close(fd)
     return (call_no, i, FLAG.get("k"))
 
 
 PULLS = {}
 FASTFAIL = [False]
+AHEAD = [None]
+STATS_LEAK = [False]
 
 
 def gen_input(logdir, call_no, N, tfail, ifail, rng, exc="TaskFail"):
@@ -101,6 +107,16 @@ def gen_input(logdir, call_no, N, tfail, ifail, rng, exc="TaskFail"):
             # the failure is immediate, the other tasks take their time, and the first one keeps an ordered caller waiting
             d = 0 if i in tfail else (1.5 if i == 0 else 0.05)
         PULLS[call_no] = i + 1
+        if AHEAD[0] is not None:
+            # how far the consumption of the input is ahead of the completed tasks, at every pull
+            try:
+                done = sum(1 for l in open(os.path.join(logdir, "done.log")) if l.strip() == str(call_no))
+            except OSError:
+                done = 0
+            AHEAD[0][call_no] = max(AHEAD[0].get(call_no, 0), i + 1 - done)
+        if STATS_LEAK[0]:
+            # first call: many very short tasks (the auto-batching grows the batches), failing late; later calls: slow tasks
+            d = 0 if call_no == 1 else 0.25
         if i in tfail and exc == "UnpicklableArg":
             import threading
             # the task cannot even be handed to a worker process
@@ -125,7 +141,7 @@ class LyingList:
 def one_call(p, c, logdir, call_no, rng, tfail, ifail):
     out = {"values": None, "raised": None}
     try:
-        inp = gen_input(logdir, call_no, c["N"], tfail, ifail, rng, c.get("exc", "TaskFail"))
+        inp = gen_input(logdir, call_no, c["N"] if call_no == 1 else c.get("N2", c["N"]), tfail, ifail, rng, c.get("exc", "TaskFail"))
         if c.get("sized") and ifail is None:
             inp = list(inp)            # a sized input: Parallel knows the number of tasks (n_tasks)
             if c["sized"] in ("under", "over"):
@@ -171,10 +187,14 @@ def run(c):
     rng = random.Random(c.get("seed", 0))
     SLOW[0] = c.get("slow", 0)
     FASTFAIL[0] = bool(c.get("fastfail"))
+    STATS_LEAK[0] = bool(c.get("stats_leak"))
+    AHEAD[0] = {} if c.get("stats_leak") else None
     PULLS.clear()
     logdir = tempfile.mkdtemp(prefix="verif-m1real-")
     if c.get("spawn"):
         open(os.path.join(logdir, "spawn"), "w").close()
+    if c.get("stats_leak"):
+        open(os.path.join(logdir, "count_done"), "w").close()
     kw = dict(n_jobs=c["n_jobs"], batch_size=c["batch_size"], pre_dispatch=c["pre_dispatch"],
               return_as=c["return_as"], verbose=c.get("verbose", 0))
     if c.get("init") is not None:
@@ -241,7 +261,8 @@ def run(c):
     import shutil
     shutil.rmtree(logdir, ignore_errors=True)
     return {"calls": list(calls), "execs": execs, "hang": hang, "pulls": {str(k): v for k, v in PULLS.items()},
-            "orphans": len(orphans), "spawned": len(pids) if c.get("spawn") else 0}
+            "orphans": len(orphans), "spawned": len(pids) if c.get("spawn") else 0,
+            "ahead": {str(k): v for k, v in (AHEAD[0] or {}).items()}}
 
 
 for line in sys.stdin:
